@@ -64,3 +64,19 @@ Theorem C17_source_dir_redirect_sanitised : forall unescape stat sanitize p urlp
   forall args, In ("c.Redirect"%string, args) (events st') -> args = [VZ 301%Z; VS (sanitize (urlpath ++ lit "/")%list)].
 Proof. exact src_static_dir_redirects_sanitised. Qed.
 Print Assumptions C17_source_dir_redirect_sanitised.
+
+(* ---- the two trailing-slash middlewares, from the statement-level translation of their request handlers
+   (Gen/Src_slashmw.v, re-translated from middleware/slash.go on every run): for every path, query, redirect code and
+   skipper verdict the handler issues the model's Location - [add_slash] / [remove_slash], the functions the safety
+   theorems above are about - or forwards exactly the model's path and request URI, or hands the request on untouched *)
+From Echo Require Import Gen.Src_slashmw Mw.SlashSrc.
+Theorem C17_source_add_slash_handler : forall (skip : bool) (code : Z) (path qs : str),
+  let '(st', ret) := GoLoop.run (SlashSrc.ssym code path qs) SlashSrc.spred src_add_slash_handler_results src_add_slash_handler (SlashSrc.start skip) in
+  handler_spec skip code (add_slash path qs) (add_slash_forward path qs) st' ret.
+Proof. exact SlashSrc.C17_source_add_slash_handler. Qed.
+Print Assumptions C17_source_add_slash_handler.
+Theorem C17_source_remove_slash_handler : forall (skip : bool) (code : Z) (path qs : str),
+  let '(st', ret) := GoLoop.run (SlashSrc.ssym code path qs) SlashSrc.spred src_remove_slash_handler_results src_remove_slash_handler (SlashSrc.start skip) in
+  handler_spec skip code (remove_slash path qs) (remove_slash_forward path qs) st' ret.
+Proof. exact SlashSrc.C17_source_remove_slash_handler. Qed.
+Print Assumptions C17_source_remove_slash_handler.
